@@ -133,7 +133,7 @@ class FsRun:
             rec.update(ok=False, err="%s: %s" % (type(e).__name__, str(e)[:80]))
         return rec
 
-    def reader_pass(self, rid, reader_box, digital_rf, fresh, archive=False):
+    def reader_pass(self, rid, reader_box, digital_rf, fresh, archive=False, archive_last=False):
         """one pass of a (possibly long-lived) DigitalRFReader: bounds + read of everything + listing.
         archive=True: the reader is opened on two top-level directories, an archive holding the same channel (its
         properties file, no data files left) and the live one"""
@@ -147,7 +147,7 @@ class FsRun:
                 os.makedirs(os.path.join(arch, "ch"), exist_ok=True)
                 shutil.copy(prop, aprop)
             if os.path.exists(aprop):
-                tops = [arch, self.top]
+                tops = [self.top, arch] if archive_last else [arch, self.top]
         ev = dict(ev="rpass", r=rid, fresh=fresh, ok=True, nochannel=False, blocks=[], data=[], fill=[], bad=0, has=False, first=0, last=0)
         try:
             if reader_box[0] is None:
